@@ -186,7 +186,24 @@ def gen(rng, ctx):
     if multi and rng.random() < 0.3:
         g = rng.choice(multi)
         retype = [g, rng.choice([t for t in G.GATESN if t != tps[g]])]
-    return {"c": cd, "kind": kind, "hostile": tag, "assumps": assumps, "via": rng.choice(["graph", "api", "sparse"]), "val_int": rng.random() < 0.3, "retype": retype, "shared_parity": shared_parity}
+    edits = []
+    if kind in ("acyclic", "pins") and rng.random() < 0.3 and len(nodes) <= maxn - 2:
+        # the same object is asked again after in-place edits through different mutators
+        for _ in range(rng.randint(1, 2)):
+            op = rng.choice(["subcircuit", "subcircuit_const", "add", "connect", "disconnect"])
+            gm = [n for n in nodes if tps[n] in G.GATESN]
+            ins = [n for n in nodes if tps[n] == "input"]
+            if op == "subcircuit":
+                edits.append(["subcircuit", f"u{len(edits)}", False])
+            elif op == "subcircuit_const":
+                edits.append(["subcircuit_const", f"u{len(edits)}", True])
+            elif op == "add" and len(nodes) >= 2:
+                edits.append(["add", f"late{len(edits)}", rng.choice(G.GATESN), rng.sample([n for n in nodes if tps[n] != "bb_input"], 2)])
+            elif op == "connect" and gm and ins:
+                edits.append(["connect", rng.choice(ins), rng.choice(gm)])
+            elif op == "disconnect" and gm:
+                edits.append(["disconnect", rng.choice(gm)])
+    return {"c": cd, "kind": kind, "hostile": tag, "assumps": assumps, "via": rng.choice(["graph", "api", "sparse"]), "val_int": rng.random() < 0.3, "retype": retype, "shared_parity": shared_parity, "edits": edits}
 
 
 def _lib(ctx, name):
@@ -316,15 +333,60 @@ def check(case, ctx):
     c = G.build(cg, cd, via)
     nv = len(ctx.violations)
     decide(case, ctx, c, first=True)
-    if len(ctx.violations) > nv or not case.get("retype"):
+    if len(ctx.violations) > nv:
         return
     # the same Circuit object after an in-place type change (an encoder must not answer for the old types)
-    g, t2 = case["retype"]
-    if g in c.graph.nodes and c.graph.nodes[g].get("type") in G.GATESN:
-        ok, _ = ctx.call(c.set_type, g, t2)
-        if ok:
-            ctx.count("requery_after_set_type")
-            decide(case, ctx, c, first=False)
+    if case.get("retype"):
+        g, t2 = case["retype"]
+        if g in c.graph.nodes and c.graph.nodes[g].get("type") in G.GATESN:
+            ok, _ = ctx.call(c.set_type, g, t2)
+            if ok:
+                ctx.count("requery_after_set_type")
+                decide(case, ctx, c, first=False)
+    for e in case.get("edits") or []:
+        if len(ctx.violations) > nv:
+            return
+        if not apply_edit(cg, c, e):
+            continue
+        ctx.count("requery_after_edit")
+        ctx.count(f"requery_after:{e[0]}")
+        decide(case, ctx, c, first=False)
+
+
+def apply_edit(cg, c, e):
+    """In-place edits between two queries of one Circuit object; returns False when the edit does not apply."""
+    op = e[0]
+    try:
+        if op in ("subcircuit", "subcircuit_const"):
+            sub = cg.Circuit(name="blk")
+            if op == "subcircuit":
+                sub.add("x", "input")
+            else:
+                sub.add("x", "1")
+            sub.add("y", "not", fanin=["x"], output=True)
+            if any(str(n).startswith(e[1] + "_") for n in c.graph.nodes):
+                return False
+            c.add_subcircuit(sub, e[1], strip_io=e[2])
+        elif op == "add":
+            if e[1] in c.graph.nodes or any(x not in c.graph.nodes for x in e[3]):
+                return False
+            c.add(e[1], e[2], fanin=list(e[3]), output=True)
+        elif op == "connect":
+            if e[1] not in c.graph.nodes or e[2] not in c.graph.nodes or c.graph.has_edge(e[1], e[2]):
+                return False
+            c.connect(e[1], e[2])
+        elif op == "disconnect":
+            ps = sorted(c.graph.predecessors(e[1])) if e[1] in c.graph.nodes else []
+            if len(ps) < 3:
+                return False
+            c.disconnect(ps[0], e[1])
+            if not list(c.graph.successors(ps[0])):
+                c.set_output(ps[0])
+        else:
+            return False
+    except ValueError:
+        return False
+    return True
 
 
 def decide(case, ctx, c, first):
@@ -457,7 +519,7 @@ def gates(counters, table, tier):
         for a in ("1", "2", "3", "4+"):
             if table.get(f"{t}/{a}", 0) < 3:
                 out.append(f"gate {t} at fan-in {a} seen {table.get(f'{t}/{a}', 0)} times")
-    for k in ("shared_parity_operands", "class:selfloop", "requery_after_set_type", "class:cyclic", "class:pins", "answer:unsat", "answer:sat", "cmp:cnf_exhaustive", "cnf_with_aux", "hostile:xor_a_b", "hostile:xor_inv", "class:lib", "class:large", "cnf_large_nodes_checked", "class:widegate", "widegate:30_or_more_operands"):
+    for k in ("shared_parity_operands", "class:selfloop", "requery_after_set_type", "requery_after_edit", "requery_after:subcircuit", "requery_after:subcircuit_const", "class:cyclic", "class:pins", "answer:unsat", "answer:sat", "cmp:cnf_exhaustive", "cnf_with_aux", "hostile:xor_a_b", "hostile:xor_inv", "class:lib", "class:large", "cnf_large_nodes_checked", "class:widegate", "widegate:30_or_more_operands"):
         if counters.get(k, 0) < 3:
             out.append(f"{k} seen {counters.get(k, 0)} times")
     return out
